@@ -62,6 +62,8 @@ pub struct Ctx {
     violations: Mutex<Vec<Violation>>,
     pub violation_count: AtomicU64,
     known_hits: Mutex<BTreeMap<String, u64>>,
+    sig_counts: Mutex<BTreeMap<String, u64>>,
+    rule: Mutex<Option<String>>,
     pub known: Vec<KnownFinding>,
     families: Mutex<Vec<(String, FamilyStat)>>,
     samples: Mutex<Vec<Value>>,
@@ -99,6 +101,8 @@ impl Ctx {
             violations: Mutex::new(Vec::new()),
             violation_count: AtomicU64::new(0),
             known_hits: Mutex::new(BTreeMap::new()),
+            sig_counts: Mutex::new(BTreeMap::new()),
+            rule: Mutex::new(None),
             known,
             families: Mutex::new(Vec::new()),
             samples: Mutex::new(Vec::new()),
@@ -169,6 +173,9 @@ impl Ctx {
     pub fn set_extra(&self, k: &str, v: Value) {
         self.extra.lock().unwrap().insert(k.to_string(), v);
     }
+    pub fn set_rule(&self, s: impl Into<String>) {
+        *self.rule.lock().unwrap() = Some(s.into());
+    }
     pub fn cap(&self, s: impl Into<String>) {
         self.caps_hit.lock().unwrap().push(s.into());
     }
@@ -182,9 +189,17 @@ impl Ctx {
             }
         }
         self.violation_count.fetch_add(1, Ordering::Relaxed);
+        {
+            let mut sc = self.sig_counts.lock().unwrap();
+            if sc.len() < 500 || sc.contains_key(&v.sig) {
+                *sc.entry(v.sig.clone()).or_insert(0) += 1;
+            }
+        }
         let mut vs = self.violations.lock().unwrap();
-        // keep one representative per (family, sig), at most 40 in total
-        if vs.len() < 40 && !vs.iter().any(|x| x.family == v.family && x.sig == v.sig) {
+        // keep one representative per signature first (at most 60), then per (family, sig) up to 80
+        let new_sig = !vs.iter().any(|x| x.sig == v.sig);
+        let new_pair = !vs.iter().any(|x| x.family == v.family && x.sig == v.sig);
+        if (new_sig && vs.len() < 80) || (new_pair && vs.len() < 40) {
             vs.push(v);
         }
     }
@@ -240,6 +255,14 @@ impl Ctx {
              evaluations = cases executed; distinct_nontrivial = number of distinct outcome digests (64-bit SipHash of the observed result of a case) over all executed cases, \
              a case being non-trivial when it produced an observation at all (capped at 4,000,000 stored digests)."
         );
+        let rule = self.rule.lock().unwrap().clone().unwrap_or(rule);
+        let sc = self.sig_counts.lock().unwrap();
+        if !sc.is_empty() {
+            eprintln!("  violation signatures ({}):", sc.len());
+            for (k, n) in sc.iter() {
+                eprintln!("    {:>9}  {}", n, k);
+            }
+        }
         let evals = self.evaluations.load(Ordering::Relaxed);
         let distinct = self.outcomes.lock().unwrap().len() as u64;
         let mut cov = json!({
@@ -253,6 +276,7 @@ impl Ctx {
             "exhaustive": exhaustive,
             "families": fam_json,
             "caps_hit": *self.caps_hit.lock().unwrap(),
+            "violation_signatures": sc.iter().map(|(k, n)| json!({"signature": k, "cases": n})).collect::<Vec<_>>(),
             "notes": *self.notes.lock().unwrap(),
             "known_findings_hit": hits.iter().map(|(k, n)| json!({"finding": k, "cases": n})).collect::<Vec<_>>(),
             "explanation": "states = model instances / inputs / histories explored (each one encoded to bytes and run against the real library); transitions = public API calls or reader events executed on them; traces_validated_against_impl = instances whose predicted observation was compared with the implementation's.",
